@@ -338,6 +338,10 @@ def run(ctx: Ctx) -> int:
         [("N", 5, 5), ("M", 0, 2, 2, 3, 3), ("DR", 0, 1, 0), ("RO", 0)],
         [("N", 5, 5), ("M", 0, 1, 1, 2, 2), ("AR", 0, 1, 4, None), ("DC", 0, 1, 4), ("RO", 0)],
     ]
+    # ranges whose corners order differently as text and as coordinates (row 9 -> 10, column Z -> AA)
+    fixed += [[("N", 12, 3), ("M", 0, 8, 0, 9, 0), ("M", 0, 4, 2, 11, 2), ("W", 0, 8, 0, 5), ("RO", 0)],
+              [("N", 3, 28), ("M", 0, 1, 25, 2, 26), ("M", 0, 0, 8, 0, 9), ("RO", 0)],
+              [("N", 101, 2), ("M", 0, 98, 1, 99, 1), ("RO", 0)]]
     fixed = [gridlib.with_dumps(h, 1) for h in fixed]
     ctx.dist("histories:merge-only", len(plain))
     ctx.dist("histories:merge+structural-edits", len(edits))
